@@ -38,7 +38,7 @@ def trace_validate(res, name, n_coroutines, n_traces, n_calls):
     desper = common.import_desper()
     rnd = random.Random(res.seed)
     G, S = rc.random_scripts(rnd, n_coroutines)
-    K = dict(G=G, Script=S, Dts={0, 1, 2, 3}, MaxTimer=1000000, WithKill=True, StartCancelsPendingKill=True, FinishDropsKillMark=True)
+    K = dict(G=G, Script=S, Dts={0, 1, 2, 3}, MaxTimer=1000000, WithKill=True, StartCancelsPendingKill=True, FinishDropsKillMark=True, BodyExceptionCleansUp=True)
     traces = rc.record(desper, K, res.seed, n_traces, n_calls)
     gen = 'CoroutinesTrace_%s' % name
     defs, consts, ov = [], {}, {}
